@@ -38,6 +38,20 @@ CLAIMED = {
              "(chain of tuples of optional elements) under TLC with the shape theorem as invariant; the real tree "
              "must equal the grammar's tree for every well-formed one.",
         note=TRUST, tech="TLC-enumerated token sequences + tree conformance", ref="5 C05"),
+    "C06": dict(
+        text="Lexer.tla is the normative lexer over code points (string literals and the two escapes, integer / hex / float / "
+             "three-piece float / boolean / identifier classification with Int64 range checks); TLC enumerates all words over a "
+             "10-character alphabet in 7 embeddings and all string bodies over 10 characters in 3 quotings, checks "
+             "Lex(quote(t)) = String(t) and token-text concatenation as theorems, and every source is replayed against "
+             "build_operator_tree. One recorded known finding (KF-1: inf / infinity / nan).",
+        note=TRUST + " The value of a float-looking word is Rust's f64::from_str (primgen).",
+        tech="TLC enumeration of strings through the TLA+ lexer + tree conformance", ref="5 C06"),
+    "C07": dict(
+        text="MC_Sep enumerates token sequences x separator assignments (whitespace characters, block / line comments, nothing); "
+             "admissibility is a syntactic fusion rule and TLC checks it is exact: the lexer returns the token sequence iff the "
+             "assignment is admissible. For every admissible assignment the single-space rendering and the separator rendering "
+             "must precompile to equal trees or the same error.",
+        note=TRUST, tech="TLC-checked separator theorem on the TLA+ lexer + two-rendering conformance", ref="5 C07"),
     "C08": dict(
         text="Eval.tla defines evaluation as a post-order, left-to-right walk threading (context, call log) that stops at "
              "the first error; TLC enumerates all programs of up to three atoms (assignments, recording user functions, "
